@@ -186,20 +186,26 @@ def nameTaken (s : Schema) : Option Name → Bool
   | some n => s.names.contains n
   | none => false
 
+/-- `table.pk_index = index` -/
+def setPk (s : Schema) (t : Name) (isPk : PkKind) : Schema :=
+  if isPk ≠ .no then updTable s t (fun t => { t with pkSet := true }) else s
+
+/-- `column.is_pk = column.is_pk or (len(columns) == 1 and is_pk)` etc. for the columns of the new index -/
+def flagColumns (columns : List Column) (t : Name) (cols : List Name) (isPk : PkKind) (uniq : Bool) : List Column :=
+  columns.map (fun c =>
+    if c.table == t && cols.contains c.name then
+      { c with isPk := orPk c.isPk (if cols.length == 1 then isPk else .no),
+               isPkPart := c.isPkPart || (isPk != .no),
+               isUnique := c.isUnique || (uniq && cols.length == 1) }
+    else c)
+
 /-- the part of `DBIndex.__init__` after all checks: register the name, update the column flags, store the index -/
 def commitIndex (s : Schema) (t : Name) (nm : Option (Name × Src)) (cols : List Name) (isPk : PkKind) (uniq : Bool) : Schema :=
-  let single := cols.length == 1
-  let s1 := if isPk ≠ .no then updTable s t (fun t => { t with pkSet := true }) else s
-  { s1 with
-    names := s1.names ++ (nm.map (·.1)).toList
-    columns := s1.columns.map (fun c =>
-      if c.table == t && cols.contains c.name then
-        { c with isPk := orPk c.isPk (if single then isPk else .no),
-                 isPkPart := c.isPkPart || (isPk != .no),
-                 isUnique := c.isUnique || (uniq && single) }
-      else c)
-    indexes := s1.indexes ++ [{ table := t, name := nm.map (·.1), src := (nm.map (·.2)).getD .norm, cols := cols,
-                                isPk := isPk, isUnique := uniq }] }
+  { setPk s t isPk with
+    names := (setPk s t isPk).names ++ (nm.map (·.1)).toList
+    columns := flagColumns (setPk s t isPk).columns t cols isPk uniq
+    indexes := (setPk s t isPk).indexes ++ [{ table := t, name := nm.map (·.1), src := (nm.map (·.2)).getD .norm, cols := cols,
+                                              isPk := isPk, isUnique := uniq }] }
 
 /-- `Table.add_index` followed by `DBIndex.__init__` (+ `Constraint.__init__`).
     `cols` are column names; the lookup `column_dict[name]` of `get_columns` is included (KeyError). -/
